@@ -112,14 +112,25 @@ theorem scanUint32_print (n : Nat) (hn : n < 2 ^ 32) (rest : Str) (hr : ∀ x, r
     parseUint_printNat 64 (by omega) (by omega) n, show n < 2 ^ 64 from by omega, if_true, hn]
   simp
 
-theorem scanAnycast_print (a : Anycast) (hd : a.depth < 2 ^ 32) (hp : a.pfx < 2 ^ 32) :
-    scanAnycast (printNat a.depth ++ ',' :: printNat a.pfx) = .ok a := by
-  unfold scanAnycast
+theorem scanAnycastR_print (a : Anycast) (hd : a.depth < 2 ^ 32) (hp : a.pfx < 2 ^ 32) :
+    scanAnycastR (printNat a.depth ++ ',' :: printNat a.pfx) = .ok a := by
+  unfold scanAnycastR
   rw [scanUint32_print a.depth hd _ (by intro x hx; simp at hx; subst hx; decide)]
   simp only []
   have := scanUint32_print a.pfx hp [] (by intro x hx; simp at hx)
   rw [List.append_nil] at this
   rw [this]
+
+theorem scanAnycast_print (a : Anycast) (hd : a.depth < 2 ^ 32) (hp : a.pfx < 2 ^ 32) :
+    scanAnycast (printNat a.depth ++ ',' :: printNat a.pfx) = .ok a := by
+  unfold scanAnycast
+  rw [utf8Decode_ascii, scanAnycastR_print a hd hp]
+  intro c hc
+  simp only [List.mem_append, List.mem_cons] at hc
+  rcases hc with hc | rfl | hc
+  · exact printNat_ascii _ c hc
+  · decide
+  · exact printNat_ascii _ c hc
 
 /-- the anycast part of the text is recognised and read back -/
 theorem anycast_part (a : Anycast) (hd : a.depth < 2 ^ 32) (hp : a.pfx < 2 ^ 32) :
@@ -315,8 +326,8 @@ theorem scanUint32_total (s : Str) : (scanUint32 s).isPanic = false := by
   · rfl
   · rename_i e he; rw [he] at h; cases h
 
-theorem scanAnycast_total (s : Str) : (scanAnycast s).isPanic = false := by
-  unfold scanAnycast
+theorem scanAnycastR_total (s : Str) : (scanAnycastR s).isPanic = false := by
+  unfold scanAnycastR
   have h := scanUint32_total s
   split
   · split
@@ -329,6 +340,8 @@ theorem scanAnycast_total (s : Str) : (scanAnycast s).isPanic = false := by
     · rfl
   · rfl
   · rename_i e he; rw [he] at h; cases h
+
+theorem scanAnycast_total (s : Str) : (scanAnycast s).isPanic = false := scanAnycastR_total _
 
 /-- the slice expression `parts[2][len("Anycast("):len(parts[2])-1]` cannot go out of range after the prefix and
 suffix checks -/
